@@ -187,7 +187,15 @@ func (h countingSlog) WithGroup(string) slog.Handler      { return h }
 
 // ---- fingerprints of call results
 
-func fpDoc(d *document.DocumentEx, err error) string {
+func fpDoc(d *document.DocumentEx, err error) (fp string) {
+	if sc := activeSched; sc != nil {
+		sc.Quiet(func() { fp = fpDocRaw(d, err) })
+		return fp
+	}
+	return fpDocRaw(d, err)
+}
+
+func fpDocRaw(d *document.DocumentEx, err error) string {
 	h := sha256.New()
 	fmt.Fprintf(h, "err=%v;", err != nil)
 	if d != nil {
@@ -557,6 +565,9 @@ func execSeq(c SchedCase, order []int) map[int]string {
 
 func (SchedEngine) Run(prop string, ci any) *core.Outcome {
 	c := ci.(SchedCase)
+	if os.Getenv("VERIF_C20_DEBUG") != "" {
+		sched.TraceLimit = 1 << 20
+	}
 	out := &core.Outcome{}
 	if c.Scenario == "D" && os.Getenv("VERIF_SCHED_CHILD") == "" {
 		return runSchedChild(c, out)
@@ -684,6 +695,8 @@ func (SchedEngine) Run(prop string, ci any) *core.Outcome {
 				fmt.Fprintf(os.Stderr, "DBG %s w%d:%s#%d[%d,%d]=%s eager=%v nb=%d\n", out.Fingerprint[:8], cl.Worker, cl.Op.Name, cl.Op.ID, cl.Invoke, cl.Return, cl.Output, cl.Op.Eager, cl.Op.NotBefore)
 			}
 			fmt.Fprintf(os.Stderr, "DBG %s result=%v memo=%v yields=%d\n", out.Fingerprint[:8], res, memo, s.Yields)
+			fmt.Fprintf(os.Stderr, "DBGTRACE %s picks=%v\n", out.Fingerprint[:8], s.Picks)
+			fmt.Fprintf(os.Stderr, "DBGTRACE %s %s\n", out.Fingerprint[:8], strings.Join(s.Trace, " "))
 		}
 		switch res {
 		case porcupine.Illegal:
